@@ -219,9 +219,15 @@ pub fn run(ctx: &Ctx) {
     std::fs::write(&empty, b"").unwrap();
     let bad = format!("{dir}/bad.txt");
     std::fs::write(&bad, [0xffu8, 0xfe, b'\n', b'a']).unwrap();
+    let bad_late = format!("{dir}/bad_late.txt");
+    std::fs::write(&bad_late, b"abc\nabd\nxy\xff\xfez\nlast\n").unwrap();
     let missing = format!("{dir}/does-not-exist.txt");
     error_case(ctx, &bin, "missing-file", &["-f", &missing], None, true);
     error_case(ctx, &bin, "non-utf8-file", &["-f", &bad], None, true);
+    error_case(ctx, &bin, "non-utf8-file-on-a-later-line", &["-f", &bad_late], None, true);
+    error_case(ctx, &bin, "non-utf8-file-on-a-later-line-with-flags", &["-r", "-f", &bad_late], None, true);
+    error_case(ctx, &bin, "non-utf8-stdin-on-a-later-line", &["-"], Some(b"abc\nabd\nxy\xff\xfez\nlast\n"), true);
+    error_case(ctx, &bin, "file-name-on-stdin-non-utf8-file-on-a-later-line", &["-f", "-"], Some(bad_late.as_bytes()), true);
     error_case(ctx, &bin, "empty-file", &["-f", &empty], None, true);
     error_case(ctx, &bin, "empty-stdin", &["-"], Some(b""), true);
     error_case(ctx, &bin, "non-utf8-stdin", &["-"], Some(&[0xff, 0xfe, b'\n']), true);
@@ -250,6 +256,6 @@ pub fn run(ctx: &Ctx) {
             Err(e) => ctx.run.machinery_error(e),
         }
     }
-    ctx.run.space(json!({"error_inputs": 14, "blank_only_files": 3}));
+    ctx.run.space(json!({"error_inputs": 18, "blank_only_files": 3}));
     let _ = std::fs::remove_dir_all(&dir);
 }
